@@ -10,8 +10,9 @@ every table of link definitions:
   * `C06_emphasis_wellformed`, `C06_emphasis_delimiters`: every <em>/<strong> match has a non-empty content
     between two delimiter strings of equal length 1 (em) or 2 (strong) made of one and the same character * or _;
   * `C06_emphasis_nested`, `C06_emphasis_disjoint_or_nested`: any two matches are disjoint or properly nested.
-  * `C06_emphasis_is_spec_partial` (lemmas in Proofs/EmphSpec.lean, Proofs/EmphRefine.lean): for every text without
-    backslash, backquote, brackets, `<`, `&` and without eight exotic whitespace code points, the matches find_core_tokens
+  * `C06_emphasis_is_spec_partial`, `C06_emphasis_is_spec_esc_partial` (lemmas in Proofs/EmphSpec.lean, Proofs/EmphRefine.lean,
+    Proofs/EmphRefineEsc.lean): for every text without backquote, brackets, `<`, `&` (backslash escapes included) and
+    without eight exotic whitespace code points, the matches find_core_tokens
     returns are - one for one, in order - the emphasis nodes computed by lean/Mistletoe/Spec/Emphasis.lean, an independent
     formal reading of CommonMark 0.30 section 6.2 + appendix (flanking, underscore restrictions, rule of three on original
     lengths, openers_bottom, strong iff both >= 2); `C06_bottoms_sound`: the per-kind opener bottoms never change a result;
@@ -24,6 +25,7 @@ that the trusted reading of the specification is held in two independent forms t
 Texts with backslash escapes, `!`/`[` and the excluded characters: explored against the Python oracle.
 """
 import itertools
+import re
 import unicodedata
 
 import common
@@ -32,7 +34,7 @@ import inline_units
 import spec_emph
 
 ID = 'C06'
-EXTRA_MODULES = ['Mistletoe.Proofs.CoreTotal', 'Mistletoe.Proofs.EmphRefine', 'propsdriver']
+EXTRA_MODULES = ['Mistletoe.Proofs.CoreTotal', 'Mistletoe.Proofs.EmphRefine', 'Mistletoe.Proofs.EmphRefineEsc', 'propsdriver']
 RULE = ('exhaustively all strings over {a, space, *, _, .} up to length 7 (quick) / 9 (thorough), over {a,*,_,\\,!,[} up to '
         'length 6 / 7 and over {a,*}, {a,_} up to length 12 / 14; random strings up to length 40 over a wider alphabet (Unicode '
         'punctuation and whitespace, digits, letters, backslash, "!", "["). Distinct by string; non-trivial when the string '
@@ -42,8 +44,8 @@ TRUSTED = ['harness/spec_emph.py is the reading of CommonMark 0.30 section 6.2 u
 ASSUMPTIONS = ['texts contain no other inline syntax (no backticks, closing brackets, angle brackets, ampersands); backslash '
                'escapes, "!" and "[" are included']
 PARTIAL = ['proved: the parser never fails; matches are well-formed, made of one delimiter character, and nest; for texts without '
-           'backslash, backquote, brackets, < and & the matches ARE those of the specification algorithm (Lean specification, '
-           'C06_emphasis_is_spec_partial). Not proved: texts with backslash escapes, "!" and "[" next to delimiter runs (explored '
+           'backquote, brackets, < and & - backslash escapes included - the matches ARE those of the specification algorithm (Lean '
+           'specification, C06_emphasis_is_spec_esc_partial). Not proved: texts with "!" and "[" next to delimiter runs (explored '
            'exhaustively over a small alphabet against the Python oracle), and the step from matches to <em>/<strong> HTML (the '
            'span resolver C16 + the HTML renderer C08, tied by the inline/doc units)',
            'the Lean specification and the Python oracle are two readings of the same text of the specification; they are '
@@ -134,7 +136,8 @@ def spans_to_html(text, spans):
             continue
         out += t
         i = j
-    return out
+    # backslash escapes: the specification's output drops the backslash of an escaped ASCII punctuation character
+    return re.sub(r'\\([!-/:-@\[-`{-~])', r'\1', out)
 
 
 class _Root:
@@ -164,7 +167,11 @@ def theorem_units(ctx):
             for tup in itertools.product(alpha, repeat=k):
                 texts.append(''.join(tup))
     rng = ctx.rng('theorem')
-    wide = [c for c in WIDE if c not in '\\['] + ['!', '>', '"', '\t', '\x0c', '\x1f', '\x85', '\u2028', '\u3000', '¿', '„']
+    for k in range(1, (6 if not ctx.thorough else 7) + 1):
+        for tup in itertools.product('a*_\\.', repeat=k):
+            if '\\' in tup and any(c in '*_' for c in tup):
+                texts.append(''.join(tup))
+    wide = [c for c in WIDE if c != '['] + ['!', '>', '"', '\t', '\x0c', '\x1f', '\x85', '\u2028', '\u3000', '¿', '„']
     for _ in range(ctx.budget(8000, 80000)):
         texts.append(''.join(rng.choice(wide) for _ in range(rng.randint(2, 40))))
     res = common.driver_batch([{'op': 'c06.spec', 'text': t} for t in texts], binary=common.PROPS_DRIVER)
